@@ -210,7 +210,7 @@ type aggStatus struct {
 }
 
 var safetyKinds = []string{"index", "slice-bounds", "nil-deref", "nil-map-write", "nil-iface-call", "nil-func-call", "nil-chan-send",
-	"type-assert", "div-by-zero", "float-to-int", "conv-range", "makeslice-len", "format-string"}
+	"type-assert", "div-by-zero", "float-to-int", "conv-range", "makeslice-len", "format-string", "close-chan"}
 
 func aggregate(fo *funcOutcome) map[string]*aggStatus {
 	m := map[string]*aggStatus{}
